@@ -141,7 +141,7 @@ def pred_cp_flip_sign(inp):
     if np.any(w2 < 0):
         return "cp_flip_sign returned a negative weight"
     for jj, f in enumerate(fs2):
-        if jj != mode:
+        if jj != mode % len(fs2):
             s = np.sum(f, axis=0) if fname == "sum" else np.mean(f, axis=0)
             if np.any(s < 0):
                 return f"column summary of factor {jj} is negative after cp_flip_sign(mode={mode})"
@@ -729,6 +729,26 @@ def run(chk):
                         chk.finding("tensorly.cp_tensor.cp_mode_dot", {"w": w, "fs": fs, "x": x, "mode": mode, "keep_dim": kd, "copy": copy},
                                     "cp_mode_dot accepted an operand whose size does not match the mode / an order-1 contraction", "cp_mode_dot_invalid")
 
+        # Python mode numbers: every negative mode and one below the range
+        if it % 3 == 1:
+            for mode in range(-N - 1, 0):
+                kind = rng.choice(["mat", "vec", "veck"])
+                d = fs[mode].shape[0] if mode >= -N else 2
+                x = gen_operand(rng, d, "vec" if kind == "veck" else kind)
+                kd = kind == "veck"
+                copy = rng.random() < 0.5
+                st, out = call(cp_mode_dot, CPTensor((w.copy(), cps(fs))), x.copy(), mode, keep_dim=kd, copy=copy)
+                lit = zcp_res(st, *((out[0], out[1]) if st == "ok" else (None, None)))
+                xl = f"(OpMat {zmat(x)})" if x.ndim == 2 else f"(OpVec {zrow(x)})"
+                emit(lambda: f"ZModeDotZ {zrow(w)} {zmats(fs)} {xl} {C.z(mode)} {C.boolc(kd)} {lit}", ("cp_mode_dot", shp(fs), feat, mode, kind, kd, copy))
+                chk.hist("outcome", st); chk.hist("negative_mode", mode)
+                if mode >= -N and not (kind == "vec" and N == 1):
+                    judge("cp_mode_dot", {"w": w, "fs": fs, "x": x, "mode": mode, "keep_dim": kd, "copy": copy, "x2": None}, (shp(fs), feat, mode, kind, kd, copy))
+                st, out = call(cp_flip_sign, CPTensor((w.copy(), cps(fs))), mode, tl.sum)
+                lit = zcp_res(st, *(out if st == "ok" else (None, None)))
+                emit(lambda: f"ZFlipZ {zrow(w)} {zmats(fs)} {C.z(mode)} {lit}", ("cp_flip_sign", shp(fs), feat, mode, "sum"))
+                if mode >= -N:
+                    judge("cp_flip_sign", {"w": w, "fs": fs, "mode": mode, "func": "sum"}, (shp(fs), feat, mode, "sum"), nontrivial=N > 1)
         # input forms: CPTensor object / plain tuple, weights given / None, copy on / off (one product and one flip per tensor)
         if it % 3 == 0:
             mode = rng.randrange(N)
@@ -778,6 +798,30 @@ def run(chk):
             perm = [int(x) for x in perms[0]]
             lit = zcp_res(st, pt.weights, pt.factors)
             emit(lambda: f"ZPerm {C.nat_list(perm)} {zrow(w.astype(np.int64))} {zmats([f.astype(np.int64) for f in fs])} {lit}", ("cp_permute_factors", shp(fs), feat, tuple(perm)))
+            # aligned component order, checked inside Coq: the assignment is optimal for the congruence matrix (norms = tape)
+            rw_ = np.array([rng.choice([1.0, -2.0, 0.5]) for _ in range(R)]) if it % 2 else rw
+            st_a, out_a = (st, out) if rw_ is rw else call(cp_permute_factors, CPTensor((rw_.copy(), cps(rfs))), CPTensor((w.copy(), cps(fs))))
+            if st_a == "ok":
+                Aeff = [rfs[0] * rw_] + list(rfs[1:])
+                tA = "[" + "; ".join(qrow(np.sqrt(np.sum(a * a, axis=0))) for a in Aeff) + "]"
+                tB = "[" + "; ".join(qrow(np.sqrt(np.sum(b * b, axis=0))) for b in fs) + "]"
+                pa = [int(x) for x in out_a[1][0]]
+                emit(lambda: f"QAlign false {qrow(rw_)} {qmats(rfs)} {qrow(w)} {qmats(fs)} {tA} {tB} {C.nat_list(pa)}", ("cp_permute_factors", shp(fs), "aligned", tuple(pa)))
+            # list form: two tensors, each with its own assignment (exact application + alignment of the normalised tensors)
+            rot = list(range(1, R)) + [0]
+            w2, fs2_ = w[rot] * 2.0, [f[:, rot] for f in fs]
+            st_l, out_l = call(cp_permute_factors, CPTensor((rw.copy(), cps(rfs))), [CPTensor((w.copy(), cps(fs))), CPTensor((w2.copy(), cps(fs2_)))])
+            chk.hist("outcome", st_l)
+            if st_l == "ok" and len(out_l[0]) == 2 and len(out_l[1]) == 2:
+                pl = [[int(x) for x in q] for q in out_l[1]]
+                zt = lambda ww, ff: f"({zrow(np.asarray(ww))}, {zmats([np.asarray(f) for f in ff])})"
+                outs = "; ".join(zt(o.weights, o.factors) if integral(o.weights, *o.factors) else "([(99999)%Z], (@nil (list (list Z))))" for o in out_l[0])
+                emit(lambda: f"ZPermList [{'; '.join(C.nat_list(q) for q in pl)}] [{zt(w, fs)}; {zt(w2, fs2_)}] (Ok [{outs}])", ("cp_permute_factors", shp(fs), "list", tuple(map(tuple, pl))))
+                for (tw_, tf_, q) in ((w, fs, pl[0]), (w2, fs2_, pl[1])):
+                    Beff = [tf_[0] * tw_] + list(tf_[1:])
+                    tA = "[" + "; ".join(qrow(np.sqrt(np.sum(a * a, axis=0))) for a in rfs) + "]"
+                    tB = "[" + "; ".join(qrow(np.sqrt(np.sum(b * b, axis=0))) for b in Beff) + "]"
+                    emit(lambda: f"QAlign true {qrow(rw)} {qmats(rfs)} {qrow(tw_)} {qmats(tf_)} {tA} {tB} {C.nat_list(q)}", ("cp_permute_factors", shp(fs), "aligned-list", tuple(q)))
         judge("cp_permute_factors", {"w": w, "fs": fs, "ref_w": rw, "ref_fs": rfs}, (shp(fs), feat, tuple(p0)), nontrivial=R > 1)
 
     # --- (3) cp_normalize on quarter-integer data (toleranced; square-root tape with contract checked in Coq)
@@ -815,15 +859,16 @@ def run(chk):
         chk.sample({"call": [str(x) for x in m]})
     chk.assumptions = ["the represented dense tensors are defined entry-wise (cp_entry, tucker_entry, tt_entry / tr_entry, pf2_entry); tensorly's own cp_to_tensor, tucker_to_tensor, "
                        "tt_to_tensor, tr_to_tensor (order >= 2) and parafac2_to_slice are compared against these definitions on this run's integer cases",
-                       "size-0 modes, rank 0, negative mode numbers and the dense form of TT-matrices are outside the model (padding of TT-matrix cores is inside)",
+                       "size-0 modes and rank 0 are outside the model",
                        "mode products are compared at the level of the represented dense tensor and its shape (which factor absorbs a contracted vector is not part of the property); "
                        "compressed slices are compared through loading x score",
                        "floating-point rounding is outside the theorems: they are stated over an abstract commutative ring / over R; the implementation is compared with the exact model at rtol 1e-9 on quarter-integer / Gaussian data"]
     chk.trusted = ["square roots in cp_normalize / tucker_normalize / parafac2_normalise are data for the model; the contract s>=0, s*s = sum of squares is checked inside Coq on every case",
                    "QR (from_CPTensor) and SVD (svd_compress_tensor_slices, obtained through tensorly's svd_interface with the rank limit computed by the harness) answers are data; "
                    "Q R = B and, for complete answers, U diag(s) Vh = X are checked inside Coq on every case",
-                   "the assignment of cp_permute_factors (scipy linear_sum_assignment) is taken from the implementation; its optimality is checked by brute force over all permutations in Python",
-                   "orthonormality of PARAFAC2 projections / loadings is a Python predicate only"]
+                   "the assignment of cp_permute_factors (scipy linear_sum_assignment) is taken from the implementation; its optimality for the congruence matrix, recomputed by the model from the factors and "
+                   "the norm tape (entries rounded to 2^-40, tolerance 2e-9), is checked by exhaustive search inside Coq (checker proved sound) and again in Python",
+                   "orthonormality of the QR / SVD answers and of the returned projections / loadings is checked inside Coq on every case (exactly on Z for svd_decompress with signed partial permutations) and again in Python"]
     return chk.finish(CLASSIFIERS)
 
 
@@ -969,6 +1014,25 @@ def run_other_formats(chk, rng, judge, mult, emit):
                 if not (k2 == "vec" and len(shape2) <= 2):
                     inp.update(x2=gen_operand(rng, shape2[m2], "vec" if k2 == "veck" else k2), mode2=m2, keep_dim2=(k2 == "veck"))
                 judge("tucker_mode_dot", inp, (sh(fs), feat, mode, kind, copy))
+        if it % 3 == 1:
+            for mode in range(-N - 1, 0):
+                kind = rng.choice(["mat", "vec", "veck"])
+                d = fs[mode].shape[0] if mode >= -N else 2
+                x = gen_operand(rng, d, "vec" if kind == "veck" else kind)
+                kd = kind == "veck"
+                copy = rng.random() < 0.5
+                st, out = call(tucker_mode_dot, TuckerTensor((core.copy(), cps(fs))), x.copy(), mode, keep_dim=kd, copy=copy)
+                if st != "ok":
+                    lit = "Err"
+                elif not integral(out[0], *out[1]) or any(np.asarray(f).ndim != 2 for f in out[1]):
+                    lit = "(Ok (mk [99999]%nat (@nil Z), (@nil (list (list Z)))))"
+                else:
+                    lit = f"(Ok ({ztens(out[0])}, {zmats([np.asarray(f) for f in out[1]])}))"
+                xl = f"(OpMat {zmat(x)})" if x.ndim == 2 else f"(OpVec {zrow(x)})"
+                emit(lambda: f"ZTkDotZ {ztens(core)} {zmats(fs)} {xl} {C.z(mode)} {C.boolc(kd)} {lit}", ("tucker_mode_dot", sh(fs), feat, mode, kind, kd, copy))
+                chk.hist("outcome", st); chk.hist("negative_mode", mode)
+                if mode >= -N and not (kind == "vec" and N == 2):
+                    judge("tucker_mode_dot", {"core": core, "fs": fs, "x": x, "mode": mode, "keep_dim": kd, "copy": copy, "x2": None}, (sh(fs), feat, mode, kind, copy))
     # --- PARAFAC2: normalise (toleranced), decompress, compress -> decompress
     for it in range(50 * mult):
         w, fs, Ps, feat = gen_pf2(rng)
@@ -1059,6 +1123,11 @@ def run_other_formats(chk, rng, judge, mult, emit):
             if st != "ok" or not close(out, dense_tt(cores, ring), exact=True):
                 chk.finding("tensorly.tr_tensor.tr_to_tensor" if ring else "tensorly.tt_tensor.tt_to_tensor", {"cores": cores},
                             "dense reconstruction differs from the chain-product definition", "tt_to_tensor")
+        if ttm and not ring:
+            st, out = call(tl.tt_matrix_to_tensor, cps(cores))
+            exp = "(mk [99999]%nat (@nil Z))" if st != "ok" or not integral(out) else ztens(out)
+            emit(lambda: f"ZTTMDense {ztens_list(cores)} {exp}", ("tt_matrix_to_tensor", sh(cores)))
+            chk.count(key=("tt_matrix_to_tensor", sh(cores)))
         for npad in (1, rng.randint(2, 3)):
             for pb in ((ring,) if it % 4 < 2 else (ring, not ring)):
                 st, out = call(pad_tt_rank, cps(cores), n_padding=npad, pad_boundaries=pb)
